@@ -1194,6 +1194,14 @@ class Interp:
     def call(self, st, f, args, kwargs, fr, k, node=None):
         if isinstance(f, BoundV):
             if f.func is None or isinstance(f.func, BuiltinV) and not isinstance(f.recv, ClassV):
+                if self.cur is not None and not fr.spec and fr.depth == 0:
+                    for callee, nm, expr in self.cur.site_asserts:
+                        if callee == "method:" + f.name:
+                            env = {"self": f.recv, "args": Tup(list(args))}
+                            env.update({"caller_" + k_: v for k_, v in st.env.items()})
+                            g_ = self.spec_bool(st, expr, env, old=st.old)
+                            self.oblige(st, f"site:{nm}", g_, kind="site", clause=expr, site_env=env)
+                            st.pc.append(g_)
                 return self.B.call_method(self, st, f.recv, f.name, f.func, args, kwargs, fr, k)
             return self.call(st, f.func, [f.recv] + list(args), kwargs, fr, k, node=node)
         if isinstance(f, ClassV):
@@ -1430,6 +1438,9 @@ class Interp:
         if err:
             return
         env = dict(env); env.update({"caller_" + k_: v for k_, v in st.env.items()})
+        for nm_ in (getattr(self.cur, "site_old", None) or {}):
+            if self.cur_entry and nm_ in self.cur_entry:
+                env[nm_] = self.cur_entry[nm_]
         g = self.spec_bool(st, expr, env, old=st.old)
         self.oblige(st, f"site:{nm}", g, kind="site", clause=expr, site_env=env)
         st.pc.append(g)          # assert, then assume: a violation is reported once, at the site
